@@ -146,7 +146,16 @@ func compareAnalysis(a *analysed, m *modelAnalysis) []mismatch {
 				out = append(out, mismatch{Part: "union", Q: q, Detail: "Implements differs", Model: md.Implements, Impl: d.Implements})
 			}
 		case "enum":
-			im, mm := d.Members, md.Members
+			// the package of the constants is not part of the model's members
+			noPkg := func(ms []irdump.Member) []irdump.Member {
+				out := make([]irdump.Member, len(ms))
+				for i, m := range ms {
+					m.Pkg = ""
+					out[i] = m
+				}
+				return out
+			}
+			im, mm := noPkg(d.Members), noPkg(md.Members)
 			if d.IsIota && md.IsIota {
 				im, mm = sortedMembers(im), sortedMembers(mm) // unstable sort: order among equal values is free
 			}
